@@ -8,7 +8,7 @@
 (* tokens whose cosine and sine this module recomputes.                    *)
 (***************************************************************************)
 EXTENDS VekLerp, TLC, Json, IOUtils
-Rec == ndJsonDeserialize(IOEnv.TRACE)
+Rec == DecodeTrace(ndJsonDeserialize(IOEnv.TRACE))
 VARIABLE l
 
 IsRootOf(m, sq) == FSq(m) = sq /\ FLe(F0, m)
